@@ -24,6 +24,31 @@ def _expand(h):
     return [ord(c) >> 5 for c in h] + [0] + [ord(c) & 31 for c in h]
 
 
+def _lookalikes():
+    """ASCII letter/digit -> non-ASCII characters that str.lower / upper / casefold / NFKC turn into it"""
+    import unicodedata
+    out = {}
+    for cp in list(range(0x80, 0x3000)) + list(range(0xff00, 0xfff0)) + list(range(0x1d400, 0x1d800)):
+        ch = chr(cp)
+        for f in (str.lower, str.upper, str.casefold, lambda x: unicodedata.normalize("NFKC", x),
+                  lambda x: unicodedata.normalize("NFKC", x).lower(), lambda x: unicodedata.normalize("NFKD", x)):
+            try:
+                t = f(ch)
+            except Exception:
+                continue
+            if len(t) == 1 and ord(t) < 128 and t.isalnum():
+                out.setdefault(t, [])
+                if ch not in out[t]:
+                    out[t].append(ch)
+    # case-only relatives first (they survive a decoder that merely lower-cases), then the rest
+    for k in out:
+        out[k].sort(key=lambda c: (c.lower() != k and c.upper() != k and c.casefold() != k, ord(c)))
+    return out
+
+
+LOOKALIKES = _lookalikes()
+
+
 def craft(hrp, data, const):
     pm = _polymod(_expand(hrp) + data + [0] * 6) ^ const
     chk = [(pm >> 5 * (5 - i)) & 31 for i in range(6)]
@@ -141,6 +166,15 @@ def gen_inputs(ctx):
                     t = s[:p] + ch + s[p + 1:]
                     out.append(("SegwitDec", {"hrp": T(hrp), "addr": T(t), "orig": T(s)},
                                 ("sub1", p <= sep, p == sep + 1, ch in CHARSET, ch.isupper())))
+        # non-ASCII look-alikes that Python's own text functions map onto the right ASCII character (lower / upper /
+        # casefold / NFKC: KELVIN SIGN -> k, LONG S -> s, fullwidth and circled letters and digits, ...), in the lower-case
+        # and in the all-upper-case spelling of the address: a one-character substitution, to be rejected
+        for form in (s, s.upper()):
+            ps_ = range(len(form)) if not q else rng.sample(range(len(form)), 6)
+            for p in ps_:
+                for ch in LOOKALIKES.get(form[p], [])[:(8 if not q else 3)]:
+                    out.append(("SegwitDec", {"hrp": T(hrp), "addr": T(form[:p] + ch + form[p + 1:]), "orig": T(form)},
+                                ("sub1-unicode-lookalike", p <= sep, form is not s)))
         # 2, 3, 4 substitutions inside the data part (incl. version symbol and checksum)
         for w in (2, 3, 4):
             for _ in range((25 if q else 600)):
